@@ -459,6 +459,12 @@ func runScript(c corr.Case) (res corr.Result) {
 	for _, line := range c.Lines {
 		f := strings.Fields(line)
 		out := "bad-op"
+		if r != nil && len(r.hits) > 0 {
+			// a property monitor fired: the locker's state can no longer be trusted (a further unlock may hit
+			// "fatal error: sync: Unlock of unlocked RWMutex", which cannot be recovered) — stop driving it
+			res.Outs = append(res.Outs, "stopped-after-violation")
+			continue
+		}
 		switch {
 		case len(f) > 0 && f[0] == "init":
 			if e, ok := parseInit(f); ok {
@@ -499,8 +505,10 @@ func runScript(c corr.Case) (res corr.Result) {
 		res.Outs = append(res.Outs, out)
 	}
 	if r != nil {
-		// release whatever can still be released so that no goroutine of this script stays parked
-		r.drain()
+		if len(r.hits) == 0 {
+			// release whatever can still be released so that no goroutine of this script stays parked
+			r.drain()
+		}
 		res.Hits = r.hits
 	}
 	return res
